@@ -11,6 +11,7 @@ from __future__ import annotations
 
 import itertools
 import math
+import sys
 
 import numpy as np
 
@@ -40,7 +41,7 @@ ASSUMPTIONS = [
     "rotate_axis with an axis whose backend outranks the rotated vector's (object self with array axis, NumPy self with Awkward axis) is outside the lattice: the stated rule makes the result backend that of self, which cannot hold the broadcast of a richer axis",
 ]
 CAP_S = {"quick": 2400, "thorough": 10800}
-NP_SHAPES = ("1d", "2d", "one", "empty", "strided", "F2d")  # strided: every other record of a larger array; F2d: Fortran-ordered 2-D
+NP_SHAPES = ("1d", "2d", "one", "empty", "strided", "F2d", "swapped")  # strided: every other record of a larger array; F2d: Fortran-ordered 2-D; swapped: fields in non-native byte order
 AK_LAYOUTS = ("flat", "jagged", "nested3", "optlist", "optrec", "regular", "empty")
 EXCLUDE = set()
 
@@ -166,6 +167,10 @@ def make(backend, system, flavor, rows, cfg):
             for r in rows:
                 big += [r, tuple(-3.0 * x - 1.0 for x in r)]
             return B.make_np(system, flavor, big)[::2]
+        if cfg == "swapped":
+            a = B.make_np(system, flavor, rows)
+            p_ = np.asarray(a.view(np.ndarray))
+            return p_.astype(p_.dtype.newbyteorder(">" if sys.byteorder == "little" else "<")).view(type(a))
         if cfg == "F2d":
             m = n // 2 * 2
             return B.make_np(system, flavor, rows[:m], shape=(2, m // 2)).copy(order="F")
@@ -182,7 +187,7 @@ def element_rows(backend, rows, cfg):
     if backend in ("OBJ", "AKR"):
         return [0]
     if backend == "NP":
-        return {"1d": list(range(n)), "2d": list(range(n // 2 * 2)), "one": [0], "empty": [], "strided": list(range(n)), "F2d": list(range(n // 2 * 2))}[cfg]
+        return {"1d": list(range(n)), "2d": list(range(n // 2 * 2)), "one": [0], "empty": [], "strided": list(range(n)), "F2d": list(range(n // 2 * 2)), "swapped": list(range(n))}[cfg]
     if cfg == "regular":
         return list(range(n // 2 * 2))
     if cfg == "empty":
@@ -348,7 +353,7 @@ def configs(ba, bb, tier):
     if bb is None:
         return [(c, None) for c in one(ba)]
     if ba == bb == "NP":
-        return [("1d", "1d"), ("2d", "2d"), ("empty", "empty"), ("strided", "1d"), ("1d", "strided"), ("F2d", "2d"), ("F2d", "F2d")]
+        return [("1d", "1d"), ("2d", "2d"), ("empty", "empty"), ("strided", "1d"), ("1d", "strided"), ("F2d", "2d"), ("F2d", "F2d"), ("swapped", "1d"), ("1d", "swapped")]
     if ba == bb == "AKA":
         return [(c, c) for c in ("flat", "jagged", "nested3", "optlist", "optrec", "regular", "empty")] if tier == "thorough" else [(c, c) for c in ("flat", "jagged", "optrec", "regular")]
     if {ba, bb} == {"NP", "AKA"}:
@@ -359,6 +364,89 @@ def configs(ba, bb, tier):
     if bb in ("OBJ", "AKR") and ba in ("NP", "AKA"):
         return [("1d" if ba == "NP" else "jagged", None)]
     return [(None, None)]
+
+
+def run_broadcast(res: Result, op, dimA, dimB, tier):
+    """NumPy broadcasting between *different* shapes: a column of vectors (n, 1) against a row (1, m) or a vector (m,) of second
+    operands or of scalar arguments gives an (n, m) result whose element [i, j] is the object-backend result for (a_i, b_j)."""
+    s = scalars_for(op)
+    keys = [k for k in ARRAYABLE if k in s and k in op_scalar_keys(op)]
+    if dimB is None and not keys:
+        return
+    flavor = "momentum" if op.momentum_only else "generic"
+    for sa, sb in S.signatures(op, dimA, dimB, "diag" if dimB is not None else "all"):
+        rows_a, rows_b = operand_rows(op, dimA, dimB, sa, sb, "quick")
+        if not rows_a or len(rows_a) < 3 or (dimB is not None and len(rows_b) < 2):
+            continue
+        rows_a = rows_a[:3]
+        n, m = 3, 2
+        va = B.make_np(sa, flavor, rows_a).reshape(n, 1)
+        for bshape in ((1, m), (m,)):
+            ss = dict(s)
+            svals = None
+            if dimB is not None:
+                rb = rows_b[1:1 + m] if len(rows_b) > m else rows_b[:m]
+                vb = B.make_np(sb, "generic", rb).reshape(bshape)
+                others = [vb]
+            else:
+                k = keys[0]
+                svals = [s[k], s[k] * 0.5] if k not in ("gamma",) else [s[k], s[k] * 1.5]
+                ss[k] = np.array(svals, dtype=np.float64).reshape(bshape)
+                others = []
+            res.states += 1
+            res.evaluations += 1
+            res.transitions += 1 + n * m
+            case = {"kind": "broadcast", "op": op.key, "sysA": list(sa), "sysB": list(sb) if sb else None, "bshape": list(bshape)}
+            cls = f"broadcast|{op.key}|{'x'.join(map(str, bshape))}|{L.sysname(sa)}" + (f"|{L.sysname(sb)}" if sb else "")
+            try:
+                r = op.call(va, others, ss)
+                if op.ret == "vec":
+                    _, rsys, _, rrows, shape = B.result_rows(r)
+                    got = [("vec", rsys, x) for x in rrows]
+                else:
+                    vals, shape = B.scalar_values(r)
+                    got = [("num", x) for x in vals]
+            except Exception as e:  # noqa: BLE001
+                # outer-product broadcasting is more than the statement promises ("element by element ... the shape is preserved"); the
+                # pinned tree rejects it for operations with pass-through coordinates.  Where a result *is* returned it must be right.
+                res.count("broadcast_between_different_shapes_rejected")
+                continue
+            if tuple(shape) != (n, m) or len(got) != n * m:
+                res.violation(cls + "|shape", f"{op.key} on shapes ({n}, 1) x {bshape} returned shape {shape}, expected {(n, m)}", case)
+                continue
+            bad = None
+            for i in range(n):
+                for j in range(m):
+                    oa = B.make_obj(sa, flavor, rows_a[i])
+                    so = dict(s)
+                    oth = []
+                    if dimB is not None:
+                        oth = [B.make_obj(sb, "generic", rb[j])]
+                    else:
+                        so[keys[0]] = svals[j]
+                    res.traces += 1
+                    try:
+                        ref = op.call(oa, oth, so)
+                    except Exception:  # noqa: BLE001
+                        continue
+                    g = got[i * m + j]
+                    if op.ret == "vec":
+                        osys, ost = L.system_of(ref)
+                        if osys != g[1] or not all((angle_close(float(p), float(q)) if nm == "phi" else fclose(float(p), float(q), 64.0)) for nm, p, q in zip(L.field_names(osys), g[2], ost)):
+                            bad = f"element [{i}, {j}] = {g[1:]} but the object backend gives {osys}{tuple(float(x) for x in ost)}"
+                    elif op.ret == "bool":
+                        if bool(g[1]) != bool(ref):
+                            bad = f"element [{i}, {j}] = {g[1]} but the object backend gives {ref}"
+                    elif not (angle_close(float(g[1]), float(ref)) if op.name in ("phi", "deltaphi") else fclose(float(g[1]), float(ref), 64.0)):
+                        bad = f"element [{i}, {j}] = {g[1]!r} but the object backend gives {float(ref)!r}"
+                    if bad:
+                        break
+                if bad:
+                    break
+            if bad:
+                res.violation(cls, f"{op.key} on shapes ({n}, 1) x {bshape}: {bad}", case)
+            else:
+                res.nontrivial += 1
 
 
 def run_mutation(res: Result, dim, system, tier):
@@ -477,6 +565,7 @@ def run_shard(shard, tier):
             if only_sa is None or only_sa == L.CART[dimA]:
                 for dt in ("int64", "int32", "float32"):
                     run_int_dtype(res, op, dimA, dimB, tier, dt)
+                run_broadcast(res, op, dimA, dimB, tier)
             res.sample({"op": op.key, "sysA": list(sa), "sysB": list(sb) if sb else None, "elements": len(rows_a), "first_row": list(rows_a[0]), "pairings": len(pairings)})
     return res
 
@@ -589,6 +678,10 @@ def run_int_dtype(res: Result, op, dimA, dimB, tier, dtype="int64"):
 
 def replay(case):
     res = Result()
+    if case.get("kind") == "broadcast":
+        op = BY_KEY[case["op"]]
+        run_broadcast(res, op, len(case["sysA"]) + 1, (len(case["sysB"]) + 1) if case.get("sysB") else None, "quick")
+        return res
     if case.get("kind") == "mutation":
         run_mutation(res, case["dim"], tuple(case["sys"]), "quick")
         return res
